@@ -92,7 +92,8 @@ def run(res, tier, seed):
     # control-flow arrangements that made an analysis chase its tail (loops through a function entry,
     # slow convergence, dead chains behind an exit, exits inside functions)
     from props.graphfacts import (dead_chain_programs, entry_by_jump_programs, exit_in_function_programs,
-                                  slow_convergence_program)
+                                  fold_grid_programs, slow_convergence_program)
+    srcs += fold_grid_programs()
     srcs += entry_by_jump_programs(rng) + dead_chain_programs(rng) + exit_in_function_programs(rng) + \
         [slow_convergence_program(rng)]
     # Inputs on which the liveness iteration *as documented* has no reachable fixed point are the
